@@ -142,7 +142,7 @@ func (rep *Report) finish(writeEvidence bool) int {
 				f := hit.Pos
 				if !strings.HasSuffix(f, ".json") {
 					// not replayed natively (nonative harness): write the model
-					f = filepath.Join(verifRoot, "replays", rep.Prop, fmt.Sprintf("%s-%s-engine.vec.json", h.Name, sanitize(hit.ID)))
+					f = filepath.Join(replayRoot(), rep.Prop, fmt.Sprintf("%s-%s-engine.vec.json", h.Name, sanitize(hit.ID)))
 					os.MkdirAll(filepath.Dir(f), 0755)
 					b, _ := json.MarshalIndent(map[string]interface{}{"harness": h.Name, "id": hit.ID, "inputs": modelStrings(hit.Model), "msg": hit.Msg, "decisions": hit.Decs, "replayed_by": "engine only (harness marked nonative)"}, "", " ")
 					os.WriteFile(f, b, 0644)
